@@ -153,6 +153,15 @@ add("C15", "exploration", "DESIGN.md §2 C15",
     "item's blocks parsed by an independent Gopher+ parser and compared with the sidecar files. Sampled.",
     "printable sidecar content without trailing blanks (quantifier); stdlib mimetypes trusted for the type")
 
+add("C13", "exploration", "DESIGN.md §2 C13",
+    "Metamorphic taint testing: Hypothesis payloads of markup / header / block-header fragments placed in 19 echo "
+    "positions; oracle = token-skeleton equality with the same page built from an inert placeholder, HTTP header "
+    "whitelist, Gopher+ block-header sequence",
+    "10k (quick) / 200k (thorough) payload x position x protocol-form cases over HTTP, HTTPS, WAP (both detections) and "
+    "Gopher+ ($, !); the payload must be found in the page (after un-escaping) for a case to count as non-trivial.",
+    "lenient html.parser tokenisation stands for what a browser/WML client would parse; payload fragments are a "
+    "fixed vocabulary combined by the generator")
+
 NOT_APPLICABLE = []
 
 
